@@ -78,7 +78,17 @@ def f_cg(mi):
     b = np.array([1.0, -1.0, 0.5, 2.0])
     x = np.zeros(4)
     alg = sp.alg.ConjugateGradient(lambda v: H @ v, b, x, max_iter=mi, tol=0)
-    return alg, lambda: [x], lambda: alg.not_positive_definite
+    return alg, lambda: [x], lambda: False     # H is positive definite: a "breakdown" stop is not a genuine one here
+
+
+def f_cg_ill(mi):
+    """Positive definite, condition number 1e4, b = ones: CG's residual norm rises in several steps."""
+    import sigpy as sp
+    d = np.logspace(0, 4, 8)
+    b = np.ones(8)
+    x = np.zeros(8)
+    alg = sp.alg.ConjugateGradient(lambda v: d * v, b, x, max_iter=mi, tol=0)
+    return alg, lambda: [x], lambda: False
 
 
 def f_pdhg(mi, prox="l1", sigma=0.1, theta=1, fc="l2"):
@@ -202,6 +212,7 @@ FACTORIES = {
     "GradientMethod.accel.box": lambda mi: f_gm(mi, True, "box"),
     "GradientMethod.plain": lambda mi: f_gm(mi, True, None),
     "ConjugateGradient": f_cg,
+    "ConjugateGradient.illconditioned": f_cg_ill,
     "PrimalDualHybridGradient": lambda mi: f_pdhg(mi, "l1", 0.1),
     "PrimalDualHybridGradient.box": lambda mi: f_pdhg(mi, "box", 1.0),
     "PrimalDualHybridGradient.theta0.l1dual": lambda mi: f_pdhg(mi, "l1", 0.5, theta=0, fc="l1"),
@@ -287,7 +298,7 @@ def gen_cases(tier, seed):
             for theta in (1, 0.5, 0):
                 for fc in ("l2", "l1"):
                     cases.append(dict(kind="early-alg", solver="pdhg", prox=prox, sigma=sigma, theta=theta, fc=fc))
-    for name in ("ConjugateGradient", "NewtonsMethod", "NewtonsMethod.backtracking", "GradientMethod", "GradientMethod.accel.box", "GradientMethod.plain",
+    for name in ("ConjugateGradient", "ConjugateGradient.illconditioned", "NewtonsMethod", "NewtonsMethod.backtracking", "GradientMethod", "GradientMethod.accel.box", "GradientMethod.plain",
                  "AltMin", "ADMM", "AugmentedLagrangianMethod", "GerchbergSaxton", "PowerMethod"):
         cases.append(dict(kind="early-alg", solver=name))
     for name in sorted(APPS):
